@@ -434,3 +434,52 @@ def gen_core_eager(seed, opts=None):
         if ia.get('sub') is not None and rng.random() < 0.7:
             ia['sub']['in_subscribe'] = rng.randint(1, 5)
     return plan
+
+
+FRAG_GRID_F = [64, 65, 70, 100, 257]
+
+
+def frag_grid_size(F):
+    w = 2 * F + 24
+    return (w + 1) * (w + 2)  # dlen in 0..w  x  mlen in {None, 0..w}
+
+
+def gen_frag_grid(seed, opts=None):
+    """C03: deterministic enumeration of (fragment size, framing, data length, metadata length) over a
+    window covering 0..2+ fragments of each; the index is carried in opts['index'] (not the seed).
+    One run exercises all five fragmentable frame types with that payload shape."""
+    opts = opts or {}
+    idx = opts.get('grid_index', 0)
+    stride = opts.get('grid_stride', 1)
+    idx = idx * stride
+    combos = [(F, fr) for F in FRAG_GRID_F for fr in ('tcp', 'ws')]
+    total = sum(frag_grid_size(F) for F, _ in combos)
+    idx %= total
+    for F, framing in combos:
+        n = frag_grid_size(F)
+        if idx < n:
+            break
+        idx -= n
+    w = 2 * F + 24
+    dlen, m = divmod(idx, w + 2)
+    mlen = None if m == 0 else m - 1
+    if dlen == 0 and not mlen:
+        dlen = 1  # the empty payload is 'no element'
+    req = {'dlen': dlen, 'mlen': mlen} if max(dlen, mlen or 0) >= 8 else {'dlen': 20, 'mlen': None}
+    lens = [[dlen, mlen]]
+    plan = {'profile': 'frag-grid', 'seed': seed, 'framing': framing, 'loop': {'eps': 0.0},
+            'client': {'fragment': F, 'read_buf': 1024}, 'server': {'fragment': F, 'read_buf': 1024},
+            'link': {'c2s': {'latency': 0.001, 'seed': 1}, 's2c': {'latency': 0.001, 'seed': 2}},
+            'grid': {'F': F, 'dlen': dlen, 'mlen': mlen}, 'faults': [], 'nontrivial': True, 'horizon': 60.0,
+            'interactions': [
+                {'id': 0, 'kind': 'rr', 'by': 'client', 'at': 0.0, 'req': req, 'resp': {'mode': 'now', 'dlen': dlen, 'mlen': mlen}},
+                {'id': 1, 'kind': 'fnf', 'by': 'client', 'at': 0.0, 'req': req},
+                {'id': 2, 'kind': 'stream', 'by': 'server', 'at': 0.0, 'req': req, 'sub': {'initial_n': MAXN, 'refill': [MAXN]},
+                 'resp': {'src': 'manual', 'count': 2, 'lens': lens, 'end': 'flag', 'pacing': 'sync'}},
+                {'id': 3, 'kind': 'channel', 'by': 'client', 'at': 0.0, 'req': req, 'sub': {'initial_n': MAXN, 'refill': [MAXN]},
+                 'pub': {'src': 'manual', 'count': 1, 'lens': lens, 'end': 'separate', 'start_idx': 1},
+                 'resp': {'src': 'gen', 'count': 1, 'lens': lens, 'end': 'separate', 'sub': {'initial_n': MAXN, 'refill': [MAXN]}}},
+                {'id': 4, 'kind': 'channel', 'by': 'server', 'at': 0.0, 'req': req, 'pub': None, 'sub': {'initial_n': MAXN, 'refill': [MAXN]},
+                 'resp': {'src': 'manual', 'count': 1, 'lens': lens, 'end': 'flag'}},
+            ]}
+    return plan
